@@ -180,8 +180,14 @@ class Recorder:
         return np.array(out, dtype=float)
 
     def _take_int(self, k, lo, hi):
-        out = [lo + self.int_values[(self._ii + i) % len(self.int_values)] % (hi - lo) for i in range(k)]
-        self._ii += k
+        """scripted prefix (reduced mod range), then the real generator: a cyclic script could trap a rejection loop"""
+        out = []
+        for i in range(k):
+            if self._ii < len(self.int_values):
+                out.append(lo + self.int_values[self._ii] % (hi - lo))
+            else:
+                out.append(int(self._orig["randint"](lo, hi)))
+            self._ii += 1
         return np.array(out, dtype=int)
 
     def _next(self, kind):
@@ -469,6 +475,7 @@ class Check:
     LEVEL = "proof"
     ASSUMPTIONS = []
     SHARD = 250
+    CASE_TIMEOUT = 60
     QUICK_N = 300
     THOROUGH_N = 5000
     SEARCH_S = {"quick": 30, "thorough": 300}
@@ -514,15 +521,23 @@ class Check:
         json.dump(body, open(path, "w"), indent=1, default=str)
         return path
 
-    def run_cases(self, cases):
-        results = []
-        for c in cases:
+    def safe_run(self, c):
+        import signal
+
+        def _alarm(sig, frm):
+            raise TimeoutError("implementation did not return within %ds" % self.CASE_TIMEOUT)
+        signal.signal(signal.SIGALRM, _alarm)
+        try:
+            signal.alarm(self.CASE_TIMEOUT)
             try:
-                obs = self.run(c)
-            except Exception as e:
-                obs = {"exception": "%s: %s" % (type(e).__name__, str(e)[:300]), "trace": traceback.format_exc()[-1500:]}
-            results.append((c, obs))
-        return results
+                return self.run(c)
+            finally:
+                signal.alarm(0)
+        except Exception as e:
+            return {"exception": "%s: %s" % (type(e).__name__, str(e)[:300]), "trace": traceback.format_exc()[-1500:]}
+
+    def run_cases(self, cases):
+        return [(c, self.safe_run(c)) for c in cases]
 
     def judge(self, results):
         """oracle + correspondence on a list of (case, obs).  returns dict"""
@@ -703,10 +718,7 @@ class Check:
             self.nprng = np.random.default_rng([self.seed, int(self.ID[1:]), rounds])
             for c in self.gen(200):
                 n += 1
-                try:
-                    o = self.run(c)
-                except Exception as e:
-                    o = {"exception": "%s: %s" % (type(e).__name__, str(e)[:300])}
+                o = self.safe_run(c)
                 msg = self.on_exception(c, o) if "exception" in o else self.oracle(c, o)
                 if msg and not self.known(c, o, msg):
                     c2, o2 = self.shrink(c, o, msg)
